@@ -134,6 +134,52 @@ func idOracle(k int, r int64, v int) string {
 	return ""
 }
 
+func tryID(f func() int64) (ok bool, v int64) {
+	defer func() {
+		if recover() != nil {
+			ok, v = false, 0
+		}
+	}()
+	return true, f()
+}
+
+// convCase: the panicking conversions of a feature id and an element id of kind k to every
+// element kind.
+func convCase(k int, r int64, v int) *wire.Case {
+	c := &wire.Case{Class: "conv"}
+	c.Int(4).Int(int64(k)).Int(r).Int(int64(v))
+	fid, eid := featureID(k, r), elementID(k, r, v)
+	names := []string{"NodeID", "WayID", "RelationID"}
+	obs := map[string]interface{}{}
+	fs := []func() int64{func() int64 { return int64(fid.NodeID()) }, func() int64 { return int64(fid.WayID()) }, func() int64 { return int64(fid.RelationID()) },
+		func() int64 { return int64(eid.NodeID()) }, func() int64 { return int64(eid.WayID()) }, func() int64 { return int64(eid.RelationID()) }}
+	for i, f := range fs {
+		ok, val := tryID(f)
+		c.Bool(ok).Int(val)
+		on := "FeatureID." + names[i%3]
+		if i >= 3 {
+			on = "ElementID." + names[i%3]
+		}
+		if ok {
+			obs[on] = val
+		} else {
+			obs[on] = "panic"
+		}
+		want := i%3+1 == k
+		if ok != want && c.OracleFail == "" {
+			if ok {
+				c.OracleFail = fmt.Sprintf("%s() of a %s id returned %d instead of panicking: the id decodes as another kind", on, kinds[k], val)
+			} else {
+				c.OracleFail = fmt.Sprintf("%s() of a %s id panicked", on, kinds[k])
+			}
+		} else if ok && val != r && c.OracleFail == "" {
+			c.OracleFail = fmt.Sprintf("%s() = %d, want %d", on, val, r)
+		}
+	}
+	c.Desc = map[string]interface{}{"kind": string(kinds[k]), "ref": r, "version": v, "feature_id": fid.String(), "element_id": eid.String(), "observed": obs}
+	return c
+}
+
 type triple struct {
 	k int
 	r int64
@@ -348,6 +394,15 @@ func main() {
 		w.Add(c)
 		if i%4 == 0 {
 			texts = append(texts, c.Desc.(map[string]interface{})["string"].(string))
+		}
+	}
+	// 1b. panicking conversions: every element kind x boundary refs
+	for k := 1; k <= 3; k++ {
+		for i, r := range refs {
+			if a.Tier != "thorough" && i%4 != 0 && r != 1<<40-1 {
+				continue
+			}
+			w.Add(convCase(k, r, bversions[i%len(bversions)]))
 		}
 	}
 	// 2. sorts
